@@ -132,8 +132,8 @@ fn worker(ctx: &Ctx, rep: &mut Report, status: Option<&str>) {
     match ctx.prop.as_str() {
         "C01" => mon::c01::work(ctx, rep, status),
         "C01miri" => mon::c01::work_miri(ctx, rep),
-        "C04" | "C05" | "C06" | "C07" => mon::diffmon::work(ctx, rep, (30_000, 300_000), (3, 4), true),
-        "C08" | "C17" | "C18" => mon::diffmon::work(ctx, rep, (40_000, 400_000), (3, 4), false),
+        "C04" | "C05" | "C06" | "C07" => mon::diffmon::work(ctx, rep, (30_000, 1_000_000), (3, 4), true),
+        "C08" | "C17" | "C18" => mon::diffmon::work(ctx, rep, (40_000, 2_000_000), (3, 4), false),
         "C03" => mon::c03::work(ctx, rep),
         "C20" => mon::c20::work(ctx, rep),
         "C02" => mon::callmon::work_c02(ctx, rep),
